@@ -303,10 +303,34 @@ def map_suite_name(name: str, rels: list[str]):
     return best
 
 
+def _dir_main_with_info(argv):
+    """-> (exit code, log text, info messages handed to the summary printer).  The count of one-sided files removed by
+    the filters is observed where directory mode hands it to `_log_suite_summary` (4th argument `info_msg`) - the label
+    (`[ INFO ]`), the wording and the position of that line in the log are display text (DESIGN §5 item 5)."""
+    import fieldcompare._cli._dir_mode as dm
+    orig = getattr(dm, "_log_suite_summary", None)
+    if orig is None:                       # seam not there (renamed): fall back to the `[ INFO ] … <n>` log line
+        rc, log = _quiet_main(argv)
+        return rc, log, [m.group(0) for line in ANSI.sub("", log).splitlines()
+                         for m in [re.match(r"\s*\[\s*INFO\s*\]\D*(\d+)", line)] if m]
+    seen = []
+
+    def spy(*args, **kwargs):
+        seen.append(kwargs["info_msg"] if "info_msg" in kwargs else (args[3] if len(args) > 3 else None))
+        return orig(*args, **kwargs)
+
+    dm._log_suite_summary = spy
+    try:
+        rc, log = _quiet_main(argv)
+    finally:
+        dm._log_suite_summary = orig
+    return rc, log, seen
+
+
 def run_dir_mode(a: str, b: str, o, xml: str, rels: list[str]) -> dict:
     if os.path.exists(xml):
         os.remove(xml)
-    rc, log = _quiet_main(["dir", a, b, "--junit-xml", xml] + dir_args(o))
+    rc, log, infos = _dir_main_with_info(["dir", a, b, "--junit-xml", xml] + dir_args(o))
     obs = {"exit": rc, "suites": [], "orphans": None, "unmapped": [], "reasons": {}}
     if os.path.exists(xml):
         for el in ET.parse(xml).getroot().findall("testsuite"):
@@ -327,11 +351,12 @@ def run_dir_mode(a: str, b: str, o, xml: str, rels: list[str]) -> dict:
         obs["suites"] = None
     verbosity = o.get("verbosity")
     if verbosity is None or verbosity >= 2:
-        n = 0
-        for line in ANSI.sub("", log).splitlines():
-            m = re.match(r"\s*\[\s*INFO\s*\]\D*(\d+)", line)     # the summary's only INFO line
-            if m:
-                n = int(m.group(1))
+        # the reported count = the first number of the info message, provided the message is in the log at all
+        n, clean = 0, ANSI.sub("", log)
+        for msg in infos:
+            m = re.search(r"\d+", ANSI.sub("", msg)) if isinstance(msg, str) else None
+            if m and ANSI.sub("", msg) in clean:
+                n = int(m.group(0))
         obs["orphans"] = n
     obs["suites"] = sorted(obs["suites"]) if obs["suites"] is not None else None
     return obs
